@@ -135,6 +135,14 @@ def check(fb, ctx):
                 key = f"DECODE|{b['path']}|{sty}"
                 ctx.check(bool(ev) or is_none, "DECODE", inst, key, f"missing/unknown oneof or enum value is not turned into Err in `{b['path']}`", f"{b['file']}:{arm['ln']}")
     ctx.floor("decode matches with a None/default arm", n, 8)
+    if ctx.tier == "thorough":
+        # second feature configuration (bwk, uuid, serde-error): the public functions it adds are entry points too
+        import facts as _facts
+        fx = _facts.load("extra")
+        dpaths = {b_["path"] for b_ in fb.bodies.values()}
+        ent_x = [b_["key"] for b_ in fx.bodies.values() if b_["crate"] == "biscuit_auth" and b_["path"] not in dpaths and b_["kind"] in ("Fn", "AssocFn")]
+        ctx.floor("functions added by the bwk/uuid/serde-error features", len(ent_x), 3)
+        reach.run(fx, ctx, ent_x, rule="REACH-extra", crates=("biscuit_auth", "biscuit_parser"))
     ctx.not_decided = [
         "hangs in general (termination); cost of parser backtracking",
         "panics inside dependency crates other than the catalogue entries",
